@@ -75,7 +75,7 @@ THEOREMS = {
             ("checkIp_flags", "isTld_range", "checkTld_range", "rc_shape", "no_abort", "flags", "extra_strings")],
     "C17": _gt("buildOpts_eq", "specials_eq") + [("Eav.Props.C17", "Eav.Props.C17." + n) for n in
             ("ascii_locals_ignore_options", "locals_ignore_underscore", "domain_ignores_local_options", "underscore_iff", "underscore_monotone",
-             "rfc5322_ascii", "utf8_necessary_all_builds", "rfc20_no_effect", "defaults_off")],
+             "rfc5322_ascii", "utf8_necessary_all_builds", "rfc20_no_effect", "rfc20_exact", "defaults_off")],
     "C18": _gt("setup_eq", "init_values") + [("Eav.Props.C18", "Eav.Props.C18." + n) for n in
             ("setupAscii_agree", "setup6531_agree", "eavSetup_agree", "backends_agree")] +
            [("Eav.Props.C13", "Eav.Props.C13." + n) for n in ("inv_setup", "free_releases", "run_inv", "lifecycle_releases")],
